@@ -30,14 +30,14 @@ def finalize_placements(rng, n):
     return calls
 
 
-def run_ctor_stage(rep, binary, files, tag):
+def run_ctor_stage(rep, binary, files, tag, model=True):
     """Adds f['values'] (rendered constructed values) to every file."""
     cs, where = [], []
     for fi, f in enumerate(files):
         for si, spec in enumerate(f["specs"]):
             cs.append([2] + spec)
             where.append((fi, si))
-    impl = stages.correspondence(rep, tag + "_ctor", binary, cs, "ctor")
+    impl = stages.correspondence(rep, tag + "_ctor", binary, cs, "ctor", model=model)
     for f in files:
         f["values"] = [None] * len(f["specs"])
     for (fi, si), r in zip(where, impl):
@@ -45,7 +45,7 @@ def run_ctor_stage(rep, binary, files, tag):
     return impl
 
 
-def run_write_stage(rep, binary, files, tag, has_shx=True):
+def run_write_stage(rep, binary, files, tag, has_shx=True, model=True):
     """Adds f['written'] (parsed writer result).  f may carry 'calls' (finalize
     placement, list of ('w', i) / ('f',)) and 'ending'."""
     cs = []
@@ -53,7 +53,7 @@ def run_write_stage(rep, binary, files, tag, has_shx=True):
         calls = f.get("calls") or [("w", i) for i in range(len(f["specs"]))]
         wire_calls = [("w", f["specs"][c[1]]) if c[0] == "w" else c for c in calls]
         cs.append(C.whist_case(f.get("has_shx", has_shx), f.get("ending", 0), wire_calls))
-    impl = stages.correspondence(rep, tag + "_whist", binary, cs, "whist")
+    impl = stages.correspondence(rep, tag + "_whist", binary, cs, "whist", model=model)
     for f, r in zip(files, impl):
         f["written"] = C.parse_whist(r)
     return impl
@@ -83,7 +83,7 @@ def route_ops(route, n, key=0):
     return [("count",)] + [("nth", i) for i in nth_order(n, key)] + [("nth", n), ("nth", n + 3), ("it", -1)]
 
 
-def run_read_stage(rep, binary, files, tag, routes=ROUTES):
+def run_read_stage(rep, binary, files, tag, routes=ROUTES, model=True):
     """Adds f['reads'][route] = parsed reader result."""
     cs, where = [], []
     for fi, f in enumerate(files):
@@ -100,7 +100,7 @@ def run_read_stage(rep, binary, files, tag, routes=ROUTES):
             ops = route_ops(route, n, fi)
             cs.append(C.read_case(req, w["shp"]["buf"], w["shx"]["buf"] if with_shx else None, ops))
             where.append((fi, route, ops))
-    impl = stages.correspondence(rep, tag + "_read", binary, cs, "read")
+    impl = stages.correspondence(rep, tag + "_read", binary, cs, "read", model=model)
     for (fi, route, ops), r in zip(where, impl):
         files[fi]["reads"][route] = C.parse_read(r, ops)
         files[fi]["reads"][route]["requested"] = ops
